@@ -364,8 +364,8 @@ def build_runner(report, race=False, pid=None):
     ov = {}
     for h in sorted(glob.glob(os.path.join(V, "hooks", "*.go"))):
         tgt = os.path.join(os.path.abspath(REPO), os.path.basename(h))
-        if not os.path.exists(tgt):
-            ov[tgt] = h
+        # /verif/hooks is the master copy: it replaces a committed copy of the same name as well
+        ov[tgt] = h
     ovf = os.path.join(WORK, pid or "all", "overlay.json")
     json.dump({"Replace": ov}, open(ovf, "w"))
     cmd = ["go", "build", "-tags", "verif", "-overlay", ovf] + (["-race"] if race else []) + ["-o", exe, "."]
